@@ -620,6 +620,464 @@ pub fn judge(case: &Case, rep: &Report, stats: &mut Stats) -> Result<(), Fail> {
     Ok(())
 }
 
+// ---------------------------------------------------------------------------
+// Racing mounts: one over-mount that appears / appears-and-goes / goes while a
+// non-following lookup is running, at every syscall boundary of that lookup.
+
+#[derive(Clone, Copy, Debug, PartialEq, Eq, Hash, Serialize, Deserialize)]
+pub enum RaceMode {
+    /// the mount appears just before syscall k and stays
+    Appear,
+    /// appears before syscall k, is removed before syscall k+1
+    Blink,
+    /// is in place from the start and removed just before syscall k
+    Vanish,
+}
+
+#[derive(Clone, Debug, Serialize, Deserialize)]
+pub struct RaceCase {
+    pub handle: HKind,
+    pub kcfg: Kcfg,
+    /// request selector, op (Open / Readlink), flags selector
+    pub request: (u16, POp, u8),
+    /// which dentry on the way is covered (index into the traversed set; the
+    /// high bit picks an unrelated entry instead)
+    pub target: u16,
+    pub mkind: MKind,
+    /// None: every placement of every mode; Some: exactly this one (replay of a shrunk failure)
+    pub only: Option<(RaceMode, usize)>,
+}
+
+pub fn race_strategy() -> impl Strategy<Value = RaceCase> {
+    (
+        prop_oneof![3 => Just(HKind::PlainOpen), 3 => Just(HKind::New), 2 => Just(HKind::CApi), 1 => Just(HKind::Fsmount), 1 => Just(HKind::OpenTree), 1 => Just(HKind::OpenTreeRecursiveBefore)],
+        prop_oneof![2 => Just(Kcfg::Full), 2 => Just(Kcfg::NoOpenat2), 1 => Just(Kcfg::NoFsopen), 3 => Just(Kcfg::NoMountApi), 4 => Just(Kcfg::NoOpenat2NoMountApi), 1 => Just(Kcfg::NoOpenat2NoFsopen)],
+        (any::<u16>(), prop_oneof![3 => Just(POp::Open), 1 => Just(POp::Readlink)], 0u8..4),
+        any::<u16>(),
+        prop_oneof![Just(MKind::Tmpfs), Just(MKind::BindForeign), Just(MKind::BindProcfs)],
+    )
+        .prop_map(|(handle, kcfg, request, target, mkind)| RaceCase { handle, kcfg, request, target, mkind, only: None })
+}
+
+#[derive(Clone, Debug, Serialize, Deserialize)]
+pub struct RaceRun {
+    pub mode: RaceMode,
+    pub k: usize,
+    pub out: String,
+    pub errno: Option<i32>,
+    pub genuine: Option<bool>,
+    pub is_mount_source: bool,
+    pub on_procfs: Option<bool>,
+    pub body: Option<B>,
+    pub panicked: Option<String>,
+    pub mount_log: Vec<String>,
+    pub applied: bool,
+}
+
+#[derive(Clone, Debug, Serialize, Deserialize)]
+pub struct RaceReport {
+    pub fatal: Option<String>,
+    pub handle_desc: String,
+    pub call: String,
+    pub target: String,
+    pub plan: String,
+    pub on_the_way: bool,
+    pub visible: bool,
+    pub baseline: String,
+    pub baseline_errno: Option<i32>,
+    pub baseline_body: Option<B>,
+    pub n_syscalls: usize,
+    pub trace: Vec<String>,
+    pub runs: Vec<RaceRun>,
+}
+
+struct RaceState {
+    plan: OverMount,
+    dst: String,
+    mount_at: Option<usize>,
+    umount_at: Option<usize>,
+    mounted: bool,
+    applied: bool,
+    log: Vec<String>,
+}
+
+fn umount_top(dst: &str) -> Result<(), i32> {
+    let d = CString::new(dst).unwrap();
+    let r = unsafe { libc::umount2(d.as_ptr(), libc::MNT_DETACH | libc::UMOUNT_NOFOLLOW) };
+    if r == 0 {
+        Ok(())
+    } else {
+        Err(errno())
+    }
+}
+
+impl RaceState {
+    fn mount(&mut self) {
+        let l = apply_overmounts(&[self.plan.clone()]);
+        if l[0].ends_with(": ok") {
+            self.mounted = true;
+            self.applied = true;
+        }
+        self.log.extend(l);
+    }
+    fn umount(&mut self) {
+        if self.mounted {
+            match umount_top(&self.dst) {
+                Ok(()) => self.mounted = false,
+                Err(e) => self.log.push(format!("umount {}: {}", self.dst, errno_name(e))),
+            }
+        }
+    }
+}
+
+/// One request through the handle (Rust API) or the C API.
+fn exec_req(handle: Option<&ProcfsHandle>, base: PBase, path: &B, op: POp, flags: i32) -> (Out, Option<OwnedFd>) {
+    let capi = handle.is_none();
+    let mut retfd = None;
+    let out = match op {
+        POp::Readlink => {
+            if capi {
+                let mut buf = vec![0u8; 4096];
+                let rr = unsafe { pathrs_proc_readlink(base.c(), cpath(path).as_ptr(), buf.as_mut_ptr() as *mut libc::c_char, buf.len()) };
+                if rr >= 0 {
+                    buf.truncate((rr as usize).min(4096));
+                    Out::Bytes(B(buf))
+                } else {
+                    c_out(rr, false).0
+                }
+            } else {
+                match guarded(|| handle.unwrap().readlink(base.rust(), path.as_path())) {
+                    Ok(pb) => Out::Bytes(B::new(pb.as_os_str().as_encoded_bytes())),
+                    Err(o) => o,
+                }
+            }
+        }
+        _ => {
+            let follow = op == POp::OpenFollow;
+            if capi {
+                let fl = if follow { flags & !libc::O_NOFOLLOW } else { flags | libc::O_NOFOLLOW };
+                let rr = unsafe { pathrs_proc_open(base.c(), cpath(path).as_ptr(), fl) };
+                let (o, fd) = c_out(rr, true);
+                retfd = fd.map(|f| unsafe { OwnedFd::from_raw_fd(f) });
+                o
+            } else {
+                let h = handle.unwrap();
+                match guarded(|| if follow { h.open_follow(base.rust(), path.as_path(), OpenFlags::from_bits_retain(flags)) } else { h.open(base.rust(), path.as_path(), OpenFlags::from_bits_retain(flags)) }) {
+                    Ok(f) => {
+                        let fd = OwnedFd::from(f);
+                        let o = Out::Fd(Obj::of_fd(fd.as_raw_fd()));
+                        retfd = Some(fd);
+                        o
+                    }
+                    Err(o) => o,
+                }
+            }
+        }
+    };
+    (out, retfd)
+}
+
+pub fn race_child(case: &RaceCase) -> RaceReport {
+    let mut rep = RaceReport { fatal: None, handle_desc: String::new(), call: String::new(), target: String::new(), plan: String::new(), on_the_way: false, visible: false, baseline: String::new(), baseline_errno: None, baseline_body: None, n_syscalls: 0, trace: vec![], runs: vec![] };
+    if let Err(e) = enter_private_mntns() {
+        rep.fatal = Some(e);
+        return rep;
+    }
+    let sb = Sandbox::create("c06r");
+    {
+        let f = openat_raw(libc::AT_FDCWD, b"/etc", libc::O_RDONLY | libc::O_DIRECTORY, 0).unwrap_or(-1);
+        let d = unsafe { libc::fcntl(f, libc::F_DUPFD_CLOEXEC, 200) };
+        close(f);
+        if d != 200 {
+            rep.fatal = Some("could not place a descriptor at 200".into());
+            return rep;
+        }
+    }
+    let pid = std::process::id() as i32;
+    let fsm = fsmount_proc().unwrap_or(-1);
+    let rec_before = open_tree_proc(true).unwrap_or(-1);
+    let otree = open_tree_proc(false).unwrap_or(-1);
+    let plain = openat_raw(libc::AT_FDCWD, b"/proc", libc::O_PATH | libc::O_DIRECTORY, 0).unwrap_or(-1);
+    let state = std::sync::Arc::new(std::sync::Mutex::new(RaceState { plan: OverMount::TmpfsOn(String::new()), dst: String::new(), mount_at: None, umount_at: None, mounted: false, applied: false, log: vec![] }));
+    let st2 = state.clone();
+    let hook: Hook = Box::new(move |sys: &Sys, _c: &mut CallRec| {
+        let mut st = st2.lock().unwrap();
+        if st.umount_at == Some(sys.idx) {
+            st.umount();
+        }
+        if st.mount_at == Some(sys.idx) {
+            st.mount();
+        }
+        Action::Continue
+    });
+    // the supervisor must not depend on /proc while entries of it are covered: no descriptor classification
+    let policy = Policy { observe: true, kinds: false, audit_fds: false, max_syscalls: 20_000, hook: Some(hook), ..Policy::default() };
+    let out = with_session(case.kcfg, Some(policy), |s| {
+        let tid = s.run(|_wg, _st| gettid());
+        // --- the request
+        let reqs = requests(tid);
+        let (rsel, op, fsel) = case.request;
+        let (base, sub) = reqs[pick(rsel, reqs.len())].clone();
+        // keep the call one that does work: readlink only on links, plain opens of links become O_PATH ones
+        let last = sub.rsplit('/').next().unwrap_or("");
+        let is_link = matches!(last, "self" | "thread-self" | "cwd" | "200" | "mnt") || (base == PBase::Root && matches!(last, "mounts" | "net"));
+        let op = if op == POp::Readlink && !is_link { POp::Open } else { op };
+        let mut flags = flags_of(fsel, op);
+        if op == POp::Open && is_link {
+            flags = libc::O_PATH | (flags & libc::O_NOFOLLOW);
+        }
+        let path = B::new(sub.as_bytes());
+        rep.call = format!("{:?}({:?}, \"{}\", 0x{:x})", op, base, sub, flags);
+        // --- the racing mount: a dentry on the way of the request (mostly), or an unrelated entry
+        let tr = traversed(base, &sub, pid, tid, false);
+        let ents = entries(pid, tid);
+        let (target, on_the_way) = if case.target & 0x8000 == 0 && !tr.is_empty() {
+            (tr[pick(case.target << 1, tr.len())].clone(), true)
+        } else {
+            let e = ents[pick(case.target << 1, ents.len())].0.clone();
+            let on = tr.contains(&e);
+            (e, on)
+        };
+        let dst = format!("/proc/{}", target);
+        let is_dir = fstatat(libc::AT_FDCWD, dst.as_bytes(), true).map(|s| s.ftype() == libc::S_IFDIR).unwrap_or(false);
+        let plan = match (is_dir, case.mkind) {
+            (true, MKind::Tmpfs) => OverMount::TmpfsOn(dst.clone()),
+            (true, MKind::BindForeign) => OverMount::BindDirOn(sb.outside().join("dir").to_string_lossy().to_string(), dst.clone()),
+            (true, MKind::BindProcfs) => OverMount::BindDirOn("/proc/1".to_string(), dst.clone()),
+            (false, MKind::BindProcfs) => OverMount::BindFileOnLink("/proc/version".to_string(), dst.clone()),
+            (false, _) => OverMount::BindFileOnLink(sb.outside().join("secret.f").to_string_lossy().to_string(), dst.clone()),
+        };
+        rep.target = target;
+        rep.plan = format!("{:?}", plan);
+        rep.on_the_way = on_the_way;
+        let mount_sources: Vec<Ident> = ["/proc/1", "/proc/version"].iter().filter_map(|p| fstatat(libc::AT_FDCWD, p.as_bytes(), true).ok().map(|s| s.id)).chain([sb.outside().join("dir"), sb.outside().join("secret.f")].iter().filter_map(|p| fstatat(libc::AT_FDCWD, p.as_os_str().as_encoded_bytes(), true).ok().map(|s| s.id))).collect();
+        {
+            let mut st = state.lock().unwrap();
+            st.plan = plan;
+            st.dst = dst;
+        }
+        // --- the handle (made while nothing is covered)
+        let capi = case.handle == HKind::CApi;
+        let visible = match case.handle {
+            HKind::PlainOpen => true,
+            HKind::New | HKind::CApi => !matches!(case.kcfg, Kcfg::Full | Kcfg::NoOpenat2 | Kcfg::NoFsopen | Kcfg::NoOpenat2NoFsopen),
+            _ => false,
+        };
+        rep.visible = visible;
+        rep.handle_desc = format!("{:?} under {}", case.handle, case.kcfg.name());
+        let made: Result<(), String> = s.run(|_wg, st| {
+            let h = match case.handle {
+                HKind::Fsmount => {
+                    if fsm < 0 {
+                        return Err("fsmount unavailable".to_string());
+                    }
+                    let d = unsafe { libc::fcntl(fsm, libc::F_DUPFD_CLOEXEC, 3) };
+                    guarded(|| ProcfsHandle::try_from_fd(unsafe { OwnedFd::from_raw_fd(d) }))
+                }
+                HKind::OpenTree => guarded(|| ProcfsHandle::try_from_fd(unsafe { OwnedFd::from_raw_fd(otree) })),
+                HKind::OpenTreeRecursiveBefore | HKind::OpenTreeRecursiveAfter => guarded(|| ProcfsHandle::try_from_fd(unsafe { OwnedFd::from_raw_fd(rec_before) })),
+                HKind::PlainOpen => guarded(|| ProcfsHandle::try_from_fd(unsafe { OwnedFd::from_raw_fd(plain) })),
+                HKind::New => guarded(ProcfsHandle::new),
+                HKind::CApi => return Ok(()),
+            };
+            match h {
+                Ok(h) => {
+                    st.procfs = Some(h);
+                    Ok(())
+                }
+                Err(o) => Err(format!("could not create the procfs handle {:?}: {}", case.handle, o.brief())),
+            }
+        });
+        if let Err(e) = made {
+            rep.fatal = Some(e);
+            return rep;
+        }
+        // --- baseline: the same call with nothing mounted (twice: the first warms the library's lazies)
+        let mut base_fd: Option<OwnedFd> = None;
+        let mut base_out = Out::Unit;
+        for round in 0..2 {
+            let (o, fd) = s.run(|wg, st| {
+                wg.enter(1 + round);
+                let r = exec_req(if capi { None } else { st.procfs.as_ref() }, base, &path, op, flags);
+                wg.exit();
+                r
+            });
+            base_out = o;
+            base_fd = fd; // kept open: pins the procfs inode, so (dev,ino) stays comparable
+        }
+        let calls = s.take_calls();
+        let bc = calls.iter().find(|c| c.id == 2);
+        rep.n_syscalls = bc.map(|c| c.n_syscalls).unwrap_or(0);
+        rep.trace = bc.map(|c| c.trace.iter().map(|t| t.short()).collect()).unwrap_or_default();
+        rep.baseline = base_out.class();
+        match &base_out {
+            Out::Err { errno, .. } => rep.baseline_errno = *errno,
+            Out::Bytes(b) => rep.baseline_body = Some(b.clone()),
+            Out::Panicked(m) => {
+                rep.fatal = Some(format!("baseline call panicked: {}", m));
+                return rep;
+            }
+            _ => {}
+        }
+        // A private instance made by the library itself may be a fresh one per call
+        // (the unmasked retry for entries outside subset=pid mounts a new procfs):
+        // (dev,ino) is comparable only when the harness knows the instance.
+        let own_instance = !visible && matches!(case.handle, HKind::New | HKind::CApi);
+        let genuine: Option<Ident> = match &base_out {
+            Out::Fd(o) if !own_instance => Some(o.id()),
+            _ => None,
+        };
+        // --- placements
+        let n = rep.n_syscalls;
+        let mut placements: Vec<(RaceMode, usize)> = vec![];
+        match case.only {
+            Some(p) => placements.push(p),
+            None => {
+                for k in 0..n {
+                    placements.push((RaceMode::Appear, k));
+                    placements.push((RaceMode::Blink, k));
+                    placements.push((RaceMode::Vanish, k));
+                }
+                // the two static ends, as a cross-check of the machinery
+                placements.push((RaceMode::Vanish, usize::MAX));
+            }
+        }
+        for (i, (mode, k)) in placements.into_iter().enumerate() {
+            {
+                let mut st = state.lock().unwrap();
+                st.applied = false;
+                st.log.clear();
+                st.mount_at = None;
+                st.umount_at = None;
+                match mode {
+                    RaceMode::Appear => st.mount_at = Some(k),
+                    RaceMode::Blink => {
+                        st.mount_at = Some(k);
+                        st.umount_at = Some(k + 1);
+                    }
+                    RaceMode::Vanish => {
+                        st.mount();
+                        st.umount_at = Some(k);
+                    }
+                }
+            }
+            let (o, fd) = s.run(|wg, st| {
+                wg.enter(10 + i as u32);
+                let r = exec_req(if capi { None } else { st.procfs.as_ref() }, base, &path, op, flags);
+                wg.exit();
+                r
+            });
+            let (log, applied, stuck) = {
+                let mut st = state.lock().unwrap();
+                st.umount();
+                (st.log.clone(), st.applied, st.mounted)
+            };
+            if stuck {
+                rep.fatal = Some(format!("could not remove the racing mount again: {:?}", log));
+                return rep;
+            }
+            let _ = s.take_calls();
+            let mut r = RaceRun { mode, k, out: o.class(), errno: None, genuine: None, is_mount_source: false, on_procfs: None, body: None, panicked: None, mount_log: log, applied };
+            match &o {
+                Out::Fd(ob) => {
+                    r.genuine = genuine.map(|g| g == ob.id());
+                    r.is_mount_source = mount_sources.contains(&ob.id());
+                    r.on_procfs = Some(fstatfs_type(ob.fd) == Ok(PROC_SUPER_MAGIC));
+                }
+                Out::Bytes(b) => r.body = Some(b.clone()),
+                Out::Err { errno, .. } => r.errno = *errno,
+                Out::Panicked(m) => r.panicked = Some(m.clone()),
+                Out::Unit => {}
+            }
+            drop(fd);
+            rep.runs.push(r);
+        }
+        drop(base_fd);
+        s.run(|_wg, st| st.procfs = None);
+        rep
+    });
+    {
+        let mut st = state.lock().unwrap();
+        st.umount();
+    }
+    close(fsm);
+    sb.destroy();
+    out
+}
+
+pub fn race_judge(case: &RaceCase, rep: &RaceReport, stats: &mut Stats) -> Result<(), Fail> {
+    if let Some(f) = &rep.fatal {
+        return Err(Fail::Harness(f.clone()));
+    }
+    stats.count("racing_cases", 1);
+    stats.class(&format!("race-handle:{:?}", case.handle));
+    stats.class(&format!("race-resolver:{}", resolver(case.kcfg)));
+    stats.class(if rep.visible { "race:host-procfs-handle" } else { "race:private-handle" });
+    stats.class(if rep.on_the_way { "race:mount-on-the-way" } else { "race:mount-elsewhere" });
+    stats.count("racing_placement_points", rep.n_syscalls as u64);
+    for r in &rep.runs {
+        stats.eval();
+        stats.class(&format!("race:{:?}:{}", r.mode, r.out));
+        if r.applied && rep.on_the_way {
+            stats.nontrivial_key(&format!("race|{}|{:?}|{:?}|{}|{:?}|{}", rep.call, case.handle, case.kcfg, rep.plan, r.mode, r.k));
+            stats.class_sample(&format!("race:{:?}:{}:{}", r.mode, if rep.visible { "host" } else { "private" }, r.out), || json!({"handle": rep.handle_desc, "call": rep.call, "racing_mount": rep.plan, "mode": format!("{:?}", r.mode), "before_syscall": r.k, "of": rep.n_syscalls, "syscall": rep.trace.get(r.k), "outcome": r.out, "genuine": r.genuine}));
+        }
+        let mk = |sig: String, msg: String| -> Fail {
+            let mut single = case.clone();
+            single.only = Some((r.mode, r.k));
+            Fail::Violation(Violation {
+                check: "racing-mount".into(),
+                signature: sig,
+                message: format!("{} on {} ({} resolver)\n  racing mount: {} ({:?} at syscall {} of {}: {:?}; mount log {:?})\n  un-raced result: {} errno={:?}\n  raced result: {} errno={:?} genuine={:?} on_procfs={:?} mount_source={} body={:?}\n  {}", rep.call, rep.handle_desc, resolver(case.kcfg), rep.plan, r.mode, r.k, rep.n_syscalls, rep.trace.get(r.k), r.mount_log, rep.baseline, rep.baseline_errno.map(errno_name), r.out, r.errno.map(errno_name), r.genuine, r.on_procfs, r.is_mount_source, r.body, msg),
+                case: serde_json::to_value(&single).unwrap(),
+            })
+        };
+        if let Some(m) = &r.panicked {
+            return Err(mk(format!("race-panic:{:?}", case.request.1), format!("library panicked: {}", m)));
+        }
+        let ok = r.out == "Ok";
+        if ok && r.is_mount_source {
+            return Err(mk(format!("race-returned-overmount-source:{:?}:{:?}", case.request.1, r.mode), "the call returned the object that was mounted over the procfs entry".into()));
+        }
+        if ok && r.genuine == Some(false) {
+            return Err(mk(format!("race-not-the-genuine-object:{:?}:{:?}", case.request.1, r.mode), "the returned object differs from what the same call returns with nothing mounted".into()));
+        }
+        if ok && r.on_procfs == Some(false) {
+            return Err(mk(format!("race-not-on-procfs:{:?}:{:?}", case.request.1, r.mode), "a non-following call returned an object that is not on procfs".into()));
+        }
+        if let (Some(a), Some(b)) = (&r.body, &rep.baseline_body) {
+            if a != b {
+                return Err(mk(format!("race-link-body:{:?}", r.mode), format!("link body differs from the un-raced one: {:?}", b)));
+            }
+        }
+        let same_as_baseline = r.out == rep.baseline && (ok || r.errno == rep.baseline_errno);
+        if !rep.visible || !rep.on_the_way {
+            // a private procfs instance (or a mount that is not on the way): unaffected
+            if !same_as_baseline && r.errno != Some(libc::EAGAIN) {
+                return Err(mk(format!("race-affected:{}:{:?}:{}", if rep.visible { "elsewhere" } else { "private" }, r.mode, r.out), "the mount cannot be seen by this lookup, yet the outcome differs from the un-raced call".into()));
+            }
+        } else if !same_as_baseline && r.errno != Some(libc::EXDEV) && r.errno != Some(libc::EAGAIN) {
+            return Err(mk(format!("race-wrong-errno:{:?}:{}", r.mode, r.out), "a racing over-mount may only turn the call into EXDEV".into()));
+        } else if r.errno == Some(libc::EXDEV) {
+            stats.class("race:detected-EXDEV");
+        }
+    }
+    Ok(())
+}
+
+pub fn race_check_once(case: &RaceCase, stats: &mut Stats) -> Result<(), Fail> {
+    match run_in_child(60.0, || race_child(case)) {
+        ChildOut::Ok(rep) => race_judge(case, &rep, stats),
+        ChildOut::Crashed { sig } => Err(Fail::Violation(Violation { check: "racing-mount".into(), signature: format!("race-crash:sig{}", sig), message: format!("child died with signal {}", sig), case: serde_json::to_value(case).unwrap() })),
+        ChildOut::Exit { code, stderr_hint } => Err(Fail::Harness(format!("child exit {}: {}", code, stderr_hint))),
+        ChildOut::Timeout => Err(Fail::Harness("child timed out".into())),
+    }
+}
+
+pub fn race_check(case: &RaceCase, stats: &mut Stats) -> Result<(), Fail> {
+    stable(&race_check_once, case, stats, 2)
+}
+
 pub fn check_once(case: &Case, stats: &mut Stats) -> Result<(), Fail> {
     match run_in_child(60.0, || child(case)) {
         ChildOut::Ok(rep) => judge(case, &rep, stats),
@@ -635,9 +1093,15 @@ pub fn check(case: &Case, stats: &mut Stats) -> Result<(), Fail> {
 
 fn run_lane(ctx: &Ctx, lr: &mut LaneResult) {
     search(ctx, lr, "overmount", ctx.tier.pick(4800, 48000), strategy(), &check);
+    search_opts(ctx, lr, "racing-mount", ctx.tier.pick(960, 9600), race_strategy(), &race_check, 30);
 }
 
-fn replay(_ctx: &Ctx, _check: &str, case: &Value) -> Result<(), Fail> {
+fn replay(_ctx: &Ctx, check_name: &str, case: &Value) -> Result<(), Fail> {
+    if check_name == "racing-mount" {
+        let case: RaceCase = serde_json::from_value(case.clone()).map_err(|e| Fail::Harness(format!("bad case: {}", e)))?;
+        let mut s = Stats::default();
+        return race_check(&case, &mut s);
+    }
     let case: Case = serde_json::from_value(case.clone()).map_err(|e| Fail::Harness(format!("bad case: {}", e)))?;
     let mut s = Stats::default();
     check(&case, &mut s)
@@ -646,8 +1110,8 @@ fn replay(_ctx: &Ctx, _check: &str, case: &Value) -> Result<(), Fail> {
 pub const PROP: Prop = Prop {
     id: "C06",
     level: "exploration",
-    rule: "in a private mount namespace: 1-4 over-mounts {tmpfs, bind of a foreign file/dir, bind of another procfs file/dir} on entries drawn from {uptime, sys, sys/kernel, sys/kernel/ostype, self, thread-self, mounts, net, <pid>, <pid>/status, fd, fd/200 (magic-link), cwd, ns, ns/mnt, attr, attr/current, environ, mounts, net, task, task/<tid>, task/<tid>/status|fd|cwd} (links are covered through an O_PATH|O_NOFOLLOW descriptor) x handle kind {ProcfsHandle::new(), try_from_fd of fsopen+fsmount / open_tree clone / recursive clone made before or after the mounts / plain open(\"/proc\"), C API global} x six kernel configurations (openat2 / fsopen / open_tree -> ENOSYS) x 4-16 calls {open, open_follow, readlink} x base x sub-path x flags. The harness knows which handle can see the mounts (it made both) and which dentries each request walks through (self, thread-self, net, mounts expanded). Oracle: a successful result is never an over-mount source, equals by (dev,ino)/link body the same lookup on a pristine descriptor of the same procfs instance made before the mounts, and non-following results are on procfs; a visible over-mount on the way => EXDEV; otherwise the call behaves exactly as on the pristine view. non-trivial = the request walks through an over-mounted entry; distinct by (request, handle, kcfg, mounted set)",
-    assumptions: &["kernel reports mount ids (6.18)", "the racing-mount part of the property (a mount created while the lookup runs) is exercised only for the placements before the call; see DESIGN.md", "identity comparison for ProcfsHandle::new()/C API is only possible when they fall back to the host procfs"],
+    rule: "in a private mount namespace: 1-4 over-mounts {tmpfs, bind of a foreign file/dir, bind of another procfs file/dir} on entries drawn from {uptime, sys, sys/kernel, sys/kernel/ostype, self, thread-self, mounts, net, <pid>, <pid>/status, fd, fd/200 (magic-link), cwd, ns, ns/mnt, attr, attr/current, environ, mounts, net, task, task/<tid>, task/<tid>/status|fd|cwd} (links are covered through an O_PATH|O_NOFOLLOW descriptor) x handle kind {ProcfsHandle::new(), try_from_fd of fsopen+fsmount / open_tree clone / recursive clone made before or after the mounts / plain open(\"/proc\"), C API global} x six kernel configurations (openat2 / fsopen / open_tree -> ENOSYS) x 4-16 calls {open, open_follow, readlink} x base x sub-path x flags. The harness knows which handle can see the mounts (it made both) and which dentries each request walks through (self, thread-self, net, mounts expanded). Oracle: a successful result is never an over-mount source, equals by (dev,ino)/link body the same lookup on a pristine descriptor of the same procfs instance made before the mounts, and non-following results are on procfs; a visible over-mount on the way => EXDEV; otherwise the call behaves exactly as on the pristine view. non-trivial = the request walks through an over-mounted entry; distinct by (request, handle, kcfg, mounted set). Second driver \"racing-mount\": one non-following call (open / readlink) x handle kind x kernel configuration x one over-mount on a dentry the call walks through (or, 1 in 2, an unrelated entry); the syscall gate counts the N system calls the un-raced call makes and the case is re-run 3N+1 times: the mount appears just before syscall k and stays / appears before k and is removed before k+1 / is in place from the start and removed before k, for every k. Oracle: a successful result is the object the un-raced call returns ((dev,ino) while that descriptor is held open; link body), on procfs, never the mount source; handles on a private instance and mounts off the way: outcome identical to the un-raced call; host-procfs handles: identical or EXDEV. non-trivial there = the mount was applied and is on the way; distinct by (call, handle, kcfg, mount, mode, k)",
+    assumptions: &["kernel reports mount ids (6.18)", "racing mounts are placed at the boundaries between the library's system calls (every one of them, enumerated); a mount that lands while the kernel is inside one openat2 walk is not controllable from user space", "identity comparison for ProcfsHandle::new()/C API is only possible when they fall back to the host procfs"],
     lanes: |_| 16,
     run_lane,
     replay,
